@@ -1,6 +1,8 @@
 package vm
 
 import (
+	"bytes"
+	"encoding/json"
 	"fmt"
 	"math/big"
 
@@ -29,6 +31,24 @@ type ScriptV1 struct {
 	Vars map[string]any `json:"vars"`
 }
 
+// UnmarshalJSON decodes numbers of the variables as json.Number, so that a monetary
+// amount given as a JSON number is not rounded through float64.
+func (s *ScriptV1) UnmarshalJSON(data []byte) error {
+	type scriptV1 struct {
+		Script
+		Vars map[string]any `json:"vars"`
+	}
+	v := scriptV1{}
+	decoder := json.NewDecoder(bytes.NewReader(data))
+	decoder.UseNumber()
+	if err := decoder.Decode(&v); err != nil {
+		return err
+	}
+	s.Script = v.Script
+	s.Vars = v.Vars
+	return nil
+}
+
 func (s ScriptV1) ToCore() Script {
 	s.Script.Vars = map[string]string{}
 	for k, v := range s.Vars {
@@ -41,6 +61,11 @@ func (s ScriptV1) ToCore() Script {
 				s.Script.Vars[k] = fmt.Sprintf("%s %s", v["asset"], amount)
 			case float64:
 				s.Script.Vars[k] = fmt.Sprintf("%s %d", v["asset"], int(amount))
+			case json.Number:
+				// exact for any magnitude; a fractional part is truncated as int() does
+				if r, ok := new(big.Rat).SetString(amount.String()); ok {
+					s.Script.Vars[k] = fmt.Sprintf("%s %s", v["asset"], new(big.Int).Quo(r.Num(), r.Denom()))
+				}
 			}
 		default:
 			s.Script.Vars[k] = fmt.Sprint(v)
